@@ -608,12 +608,23 @@ def r65(ctx) -> None:
         if isinstance(e, ast.Name):
             # guarded: control-dependent on `e <= max_value`
             for t in hcfg.nodes:
-                if t.kind == 'test' and isinstance(t.stmt.test, ast.Compare) \
-                        and len(t.stmt.test.ops) == 1 and \
-                        txt(t.stmt.test.left) == e.id and \
-                        isinstance(t.stmt.test.ops[0], (ast.LtE, ast.Lt)) \
-                        and is_name(t.stmt.test.comparators[0], 'max_value') \
-                        and hcfg.controlled_by(node, t, 't'):
+                if not (t.kind == 'test' and isinstance(t.stmt.test,
+                                                        ast.Compare)
+                        and len(t.stmt.test.ops) == 1):
+                    continue
+                c_ = t.stmt.test
+                l_, r_, op = txt(c_.left), txt(c_.comparators[0]), c_.ops[0]
+                # e <= max (true edge)  ==  not (e > max) (false edge), and
+                # the mirrored spellings max >= e / not (max < e)
+                if (l_, r_) == (e.id, 'max_value'):
+                    edge = 't' if isinstance(op, (ast.LtE, ast.Lt)) else (
+                        'f' if isinstance(op, (ast.Gt, ast.GtE)) else None)
+                elif (l_, r_) == ('max_value', e.id):
+                    edge = 't' if isinstance(op, (ast.GtE, ast.Gt)) else (
+                        'f' if isinstance(op, (ast.Lt, ast.LtE)) else None)
+                else:
+                    edge = None
+                if edge and hcfg.controlled_by(node, t, edge):
                     return True
             defs = [(st, v) for st, v in local_assigns(h, e.id)
                     if v is not None]
